@@ -267,6 +267,9 @@ SOLVERS = {
     "z3": ["z3-new", "-in"],
     "z3old": ["/usr/bin/z3", "-in"],
     "cvc5": ["cvc5", "--lang", "smt2", "--produce-models"],
+    # bit-vector queries solved over the integers with mod-2^k semantics kept (linear
+    # length arithmetic that bit-blasting does not finish)
+    "cvc5int": ["cvc5", "--lang", "smt2", "--solve-bv-as-int=sum"],
 }
 
 
